@@ -262,19 +262,18 @@ def run_driver(groups, nproc=None):
     n = len(groups)
     if n == 0:
         return []
-    nproc = nproc or min(16, max(1, sum(len(g) for g in groups) // 200 + 1))
-    # contiguous chunks balanced by line count
-    total = sum(len(g) for g in groups)
-    target = total / nproc
-    chunks, cur, cnt = [], [], 0
-    for g in groups:
-        cur.append(g)
-        cnt += len(g)
-        if cnt >= target and len(chunks) < nproc - 1:
-            chunks.append(cur)
-            cur, cnt = [], 0
-    if cur:
-        chunks.append(cur)
+    weights = [sum(len(line) for line in g) + 50 * len(g) for g in groups]
+    nproc = nproc or min(16, max(1, sum(len(g) for g in groups) // 200 + 1, sum(weights) // 150000 + 1))
+    # balance by input size (long messages cost proportionally more): heaviest group to the lightest bucket; a group is
+    # never split and groups are independent of each other (every `hist.new` starts a new object), original order inside a bucket
+    buckets = [[] for _ in range(nproc)]
+    loads = [0] * nproc
+    for idx in sorted(range(n), key=lambda i: -weights[i]):
+        b = loads.index(min(loads))
+        buckets[b].append(idx)
+        loads[b] += weights[idx]
+    buckets = [sorted(b) for b in buckets if b]
+    chunks = [[groups[i] for i in b] for b in buckets]
     procs = []
     for ch in chunks:
         data = "".join(line + "\n" for g in ch for line in g)
@@ -305,6 +304,12 @@ def run_driver(groups, nproc=None):
         for g in ch:
             result.append(lines[k:k + len(g)])
             k += len(g)
+    # back to the caller's order
+    order = [i for b in buckets for i in b]
+    back = [None] * n
+    for pos, i in enumerate(order):
+        back[i] = result[pos]
+    result = back
     for g in result:
         for r in g:
             if r.startswith("bad\t"):
@@ -377,6 +382,54 @@ def audit(pid, theorems, imp="PsecModel"):
         res[t] = {"axioms": None, "ok": False, "error": "theorem missing or audit failed"}
     return {"theorems": res, "raw": out[-2000:] if p.returncode != 0 else "",
             "checker_cmd": f"cd lean && lake build {imp} && lake env lean .lake/audit_{pid}.lean  # #print axioms of {len(theorems)} theorems"}
+
+
+def big_lengths(rng, tier, bs):
+    """message / data lengths around the buffer sizes an implementation might chunk at (1 KiB .. 64 KiB): the boundary itself,
+    one block and one byte either side. Quick: a fixed core plus a random pick; thorough: all."""
+    core_ = [4096 - bs, 4095, 4096, 4097, 4096 + bs, 8192, 8192 + bs]
+    more = []
+    for p2 in (1024, 2048, 16384, 32768, 65536):
+        more += [p2 - bs, p2, p2 + 1, p2 + bs]
+    if tier == "thorough":
+        return core_ + more + [3 * 4096, 5 * 4096 + bs, 131072]
+    return core_ + rng.sample(more, 4)
+
+
+def import_cone(module):
+    """project modules (PsecModel.*) transitively imported by `module`, the module itself included"""
+    seen, todo = [], [module]
+    while todo:
+        m = todo.pop()
+        if m in seen or not m.startswith("PsecModel"):
+            continue
+        path = os.path.join(LEAN_DIR, *m.split(".")) + ".lean"
+        if not os.path.exists(path):
+            continue
+        seen.append(m)
+        with open(path) as fh:
+            for line in fh:
+                mm = re.match(r"\s*import\s+(\S+)", line)
+                if mm:
+                    todo.append(mm.group(1))
+                elif line.strip() and not line.startswith("import") and not line.startswith("--"):
+                    if not line.startswith("/-") and "import" not in line:
+                        break
+    return sorted(seen)
+
+
+def leanchecker(module):
+    """thorough tier: replay every declaration of the property's import cone (project modules) through the independent
+    checker `leanchecker` (lean4checker). Returns dict(rc, modules, wall_s, tail)."""
+    mods = import_cone(module)
+    t0 = time.time()
+    try:
+        p = subprocess.run(["lake", "env", "leanchecker"] + mods, cwd=LEAN_DIR, capture_output=True, text=True, timeout=3000)
+        rc, tail = p.returncode, (p.stdout + p.stderr)[-1500:]
+    except subprocess.TimeoutExpired:
+        raise InfraError("leanchecker timed out")
+    return {"rc": rc, "modules": mods, "wall_s": round(time.time() - t0, 1), "tail": tail,
+            "cmd": "cd lean && lake env leanchecker " + " ".join(mods)}
 
 
 # --------------------------------------------------------------------------
